@@ -1513,12 +1513,11 @@ theorem readUntilImageData_pending (cfg : Cfg) (t : TCfg) (r : R) :
     | none => exact h
     | some i =>
       simp only
-      cases bppFromUsize (bytesPerPixel i.color i.depth) with
-      | none => exact h
-      | some bpp =>
+      rcases reserveBytes_cases r1 (outLineSize t i r1.flags (Sub.new i).width) with hr | hr
+      · rw [hr]; exact h
+      · rw [hr]
         simp only
-        rcases reserveBytes_cases ({ r1 with sub := Sub.new i, bpp := bpp, ub := UB.new } : R)
-          (outLineSize t i r1.flags (Sub.new i).width) with hr | hr <;> rw [hr] <;> exact h
+        cases bppFromUsize (bytesPerPixel i.color i.depth) <;> exact h
 
 theorem nextFrameBuf_pending (cfg : Cfg) (t : TCfg) (r : R) (buf : Bytes) :
     (nextFrameBuf cfg t r buf).1.pendingBuf = r.pendingBuf := by
